@@ -1,7 +1,7 @@
 (* Props/C06_rtubin.v — C06, RTU / binary half: chunking independence.  ONLY statements. *)
 From PM.theories Require Import Base Expr Struct FrBCode Crc FrBCommon FrRtu FrBin FrSpecB.
 From PM.Generated Require Import GenFramerB.
-From PM.proofs Require Import Crc_proofs FrB_witness_proofs FrB_rtu_proofs FrB_bin_proofs.
+From PM.proofs Require Import Crc_proofs FrB_witness_proofs FrB_rtu_proofs FrB_bin_proofs FrB_rtu_client_proofs.
 Open Scope list_scope.
 Open Scope N_scope.
 
@@ -52,6 +52,27 @@ Theorem C06_rtu_loop_terminates : forall cfg st chunk, known_rules (cf_rules cfg
   wfb (r_buf st ++ chunk) = true -> snd (rtu_recv cfg st chunk) <> FOutOfFuel.
 Proof. exact rtu_recv_no_fuel_out. Qed.
 Print Assumptions C06_rtu_loop_terminates.
+
+(* no exception of the framer escapes: from any state satisfying the reachable-state invariant, on
+   ANY chunk (valid, incomplete or garbage), with a table of prefix-stable size rules, a call lets
+   escape only ModbusIOException (decoder returned None) or what decoder.decode itself raised; it
+   terminates, keeps the invariant and never grows the buffer.  (Excluded: ReadDeviceInformationResponse
+   - refuted by C06_rtu_mei_refuted: struct.error then KeyError - and ReadFifoQueueResponse, whose
+   rule is not prefix-stable and unbounded: C11_rtu_fifo_refuted.) *)
+Theorem C06_rtu_raises_only_io : forall cfg st chunk st' ds x,
+  table_simple (cf_rules cfg) = true -> wfb (r_buf st ++ chunk) = true -> rtu_inv st ->
+  rtu_recv cfg st chunk = (st', ds, x) ->
+  exit_ok cfg x /\ x <> FOutOfFuel /\ rtu_inv st' /\ exists pre, r_buf st ++ chunk = pre ++ r_buf st'.
+Proof. exact rtu_raises_only_io. Qed.
+Print Assumptions C06_rtu_raises_only_io.
+
+(* a raising call that saw at most one CRC-valid frame has delivered nothing *)
+Theorem C06_rtu_one_frame_clean : forall cfg st chunk st' ds x,
+  table_simple (cf_rules cfg) = true -> wfb (r_buf st ++ chunk) = true -> rtu_inv st ->
+  ~ two_frames (r_buf st ++ chunk) ->
+  rtu_recv cfg st chunk = (st', ds, x) -> x <> FOk -> ds = [].
+Proof. exact rtu_one_frame_clean. Qed.
+Print Assumptions C06_rtu_one_frame_clean.
 
 Example C06_nonvacuous :
   let cfg := {| cf_dec := fun _ => DMsg; cf_rules := server_decoder; cf_units := [1%Z]; cf_single := false |} in
